@@ -180,7 +180,11 @@ func inlineFilterRefs(r Getter, val Object) (Native, error) {
 
 // CopyArray copies an array from the source file to the target file.
 func (c *Copier) CopyArray(obj Array) (Array, error) {
-	var res Array
+	if obj == nil {
+		return nil, nil
+	}
+	// an empty array must stay an empty array, not become null
+	res := make(Array, 0, len(obj))
 	for _, val := range obj {
 		var repl Native
 		if val != nil {
